@@ -344,7 +344,7 @@ impl Property for C12 {
     }
     fn strategy(&self, tier: Tier) -> BoxedStrategy<Case> {
         let max = tier.pick(40, 200);
-        (prop_oneof![Just(2u8), Just(3u8)], proptest::collection::vec(op_strategy(), 0..max))
+        (prop_oneof![Just(2u8), Just(3u8)], prop_oneof![19 => proptest::collection::vec(op_strategy(), 0..max), 1 => proptest::collection::vec(op_strategy(), max..(4 * max))])
             .prop_map(|(k, ops)| Case { k, ops })
             .boxed()
     }
